@@ -157,9 +157,9 @@ CHECKS["C08"] = dict(
 CHECKS["C04"] = dict(
     level="exploration", engine="E-VAL",
     technique="exhaustive configuration enumeration on the implementation: all 2^18 query-response hint masks and all 2^17 signature hint masks, rr x other masks and cross terms, output parsed by the independent reader",
-    level_text="For every enumerated hint configuration a block with two fully populated query/responses sharing table values, a repeated address event and two malformed messages is exported and parsed independently: every member present must have its hint bit set, every table entry must be reachable from a stored item, AEC/MM arrays appear only when enabled, the preamble states exactly the configured masks, and the stored block equals the hint-filtered expectation of the reference model (so enabled fields are not lost either).",
+    level_text="For every enumerated hint configuration a block with two fully populated query/responses sharing table values, a repeated address event and two malformed messages is exported and parsed independently: every member present must have its hint bit set, every table entry must be reachable from a stored item, AEC/MM arrays appear only when enabled, the preamble states exactly the configured masks, and the stored block equals the hint-filtered expectation of the reference model (so enabled fields are not lost either). Family relabel: every non-empty subset of {query/response, malformed message, address event} x other-data hints A x B x 3 query/response masks for B x 2 insertion orders - a block built under A is asked to take parameters B through set_block_parameters and written into a file listing A and B; the block in the file must conform to the hints stated for the index it names.",
     level_note="Trusted: hint-bit table written from RFC 8618 (response question list shares bit 11 - library choice stated in DESIGN 3); ref/ parser. The full cross product 2^18 x 2^17 is covered up to <= 1 (quick) / <= 2 (thorough) deviating bits per side; each guard in the code tests one bit and one field.",
-    stages=[dict(harness="val", variant="asan", args=["--mode", "hints"]),
+    stages=[dict(harness="val", variant="asan", args=["--mode", "hints"], require=["relabel_files"]),
             dict(harness="hist", variant="plain", args=["--mode", "hints-edit"], prefix="edit_", require=["blocks_validated"])],
     rule="mask enumeration: [0,2^18) x {all sig}, {all qr} x [0,2^17), 16 rr/other combinations, cross terms of masks with <= k cleared or <= k set bits on each side; a configuration is non-trivial unless both masks are 0; all distinct",
     bound_quick="cross terms with <= 1 deviation per side x 4 rr/other combinations", bound_thorough="cross terms with <= 2 deviations per side x 16 rr/other combinations",
